@@ -12,6 +12,7 @@ import OnlVerif.Util.TimerOnKReplay
 import OnlVerif.Net.WireOnKReplay
 import OnlVerif.Net.SPOnKReplay
 import OnlVerif.Net.TBOnKReplay
+import OnlVerif.Tcp.SenderOnKReplay
 /-! Line-protocol driver: `driver <mode>` reads cases on stdin and prints the model's observations. -/
 
 def main (args : List String) : IO UInt32 := do
@@ -32,4 +33,5 @@ def main (args : List String) : IO UInt32 := do
   | ["wirek"] => wirekLoop stdin; return 0
   | ["spk"] => spkLoop stdin; return 0
   | ["tbk"] => tbkLoop stdin; return 0
+  | ["sndk"] => sndkLoop stdin; return 0
   | _ => IO.eprintln "usage: driver <kernel|fifo|gensink|timer|rt|…>"; return 2
